@@ -8,6 +8,58 @@ mod prng;
 mod util;
 mod graphio;
 mod interp;
+/// Counting global allocator (C13): counts bytes requested / live / peak and otherwise delegates to
+/// `System`. Counters are process-wide; a child process resets them around each decode.
+pub mod alloc_count {
+    use std::alloc::{GlobalAlloc, Layout, System};
+    use std::sync::atomic::{AtomicUsize, Ordering::Relaxed};
+    pub static LIVE: AtomicUsize = AtomicUsize::new(0);
+    pub static PEAK: AtomicUsize = AtomicUsize::new(0);
+    pub static TOTAL: AtomicUsize = AtomicUsize::new(0);
+    pub static MAXREQ: AtomicUsize = AtomicUsize::new(0);
+    pub struct Counting;
+    #[inline]
+    fn add(n: usize) {
+        TOTAL.fetch_add(n, Relaxed);
+        MAXREQ.fetch_max(n, Relaxed);
+        let live = LIVE.fetch_add(n, Relaxed).saturating_add(n);
+        PEAK.fetch_max(live, Relaxed);
+    }
+    unsafe impl GlobalAlloc for Counting {
+        unsafe fn alloc(&self, l: Layout) -> *mut u8 {
+            add(l.size());
+            System.alloc(l)
+        }
+        unsafe fn alloc_zeroed(&self, l: Layout) -> *mut u8 {
+            add(l.size());
+            System.alloc_zeroed(l)
+        }
+        unsafe fn dealloc(&self, p: *mut u8, l: Layout) {
+            LIVE.fetch_sub(l.size(), Relaxed);
+            System.dealloc(p, l)
+        }
+        unsafe fn realloc(&self, p: *mut u8, l: Layout, new: usize) -> *mut u8 {
+            add(new);
+            LIVE.fetch_sub(l.size(), Relaxed);
+            System.realloc(p, l, new)
+        }
+    }
+    /// Start a measurement window: peak := live, total := 0, maxreq := 0; returns the baseline.
+    pub fn reset() -> usize {
+        let live = LIVE.load(Relaxed);
+        PEAK.store(live, Relaxed);
+        TOTAL.store(0, Relaxed);
+        MAXREQ.store(0, Relaxed);
+        live
+    }
+    /// (peak above `baseline`, total bytes requested, largest single request) since `reset`.
+    pub fn snapshot(baseline: usize) -> (usize, usize, usize) {
+        (PEAK.load(Relaxed).saturating_sub(baseline), TOTAL.load(Relaxed), MAXREQ.load(Relaxed))
+    }
+}
+#[global_allocator]
+static GLOBAL: alloc_count::Counting = alloc_count::Counting;
+
 include!(concat!(env!("OUT_DIR"), "/registry.rs"));
 
 use prng::Rng;
@@ -65,6 +117,10 @@ fn main() {
     let cmd = args.get(1).map(String::as_str).unwrap_or("");
     let ss = streams();
     std::panic::set_hook(Box::new(|_| {}));
+    if cmd == "child" {
+        // private sub-command: isolated decode worker (C13); never returns
+        std::process::exit(c13::child_main(&args[2..]));
+    }
     let stdout = std::io::stdout();
     let mut out = std::io::BufWriter::new(stdout.lock());
     match cmd {
